@@ -62,6 +62,16 @@ def grammars(ctx):
                 order = ctx['rng'].random() < 0.5
                 g = stmts + defs if order else defs + stmts
                 out.append((name, mask, pos, gen.show_grammar(g).encode()))
+    # a user-redefined built-in referenced from inside a definition, for every intermediate name of the pool and
+    # both statement orders (the order in which definitions are visited depends on their names)
+    for b in ('PATH', 'DIRECTORY'):
+        for y in POOL:
+            for first in (0, 1):
+                defs = [('def', y, None, ('seq', [('lit', 'a', None), ('nt', b)])), ('def', b, None, ('cmd', 'echo %s_plain' % b.lower()))]
+                if first:
+                    defs.reverse()
+                g = [('call', 'cmd', ('nt', y))] + defs
+                out.append((b, 1, 'defpool', gen.show_grammar(g).encode()))
     # several names at once: one at top level, two inside words (command ids differ between the main
     # automaton and the within-word automata)
     r0 = ctx['rng']
